@@ -42,7 +42,7 @@ def gen_cfg(rng, focus, solvers=('nm', 'powell', 'de', 'de2')):
         if focus == 'c02':
             box['when'] = rng.choice([0, 0, 0, 1, 2, 3])
             if rng.random() < 0.3:
-                nb = K.gen_box(rng, dim, cfg['x0'], shape='finite')
+                nb = K.gen_box(rng, dim, cfg['x0'], shape=rng.choice(['finite', 'finite', 'onesided']))
                 box['change'] = {'at': box['when'] + rng.randint(1, 4), 'lo': nb['lo'], 'hi': nb['hi'],
                                  'remove_first': rng.random() < 0.3}
             box['none_entries'] = rng.random() < 0.15
